@@ -14,7 +14,7 @@ EXPLANATION = ("static analysis (MIR abstract interpretation): the swap toleranc
 ASSUMPTIONS = ["that the measured quantity is the documented one is a value-range fact and is NOT decided (stableswap spread under mixed decimals, "
                "stableswap deposit tolerance comparing a ratio >= 1 with a tolerance <= 1: both reported by the property text, out of reach)",
                "index-level mistakes inside a comparison (pools[0] vs pools[1]) are not visible to origin-level provenance"]
-TECHNIQUE = "static analysis: monotonicity by operator polarity (operand roles), constant/default/cap provenance, guard cut-sets"
+TECHNIQUE = "static analysis: monotonicity by operator polarity (operand roles), constant/default/cap provenance, guard cut-sets, constant-position agreement of ratios, field agreement of tolerances on the single-sided path"
 LEVEL_TEXT = "Structural obligations over all paths of assert_max_slippage, assert_slippage_tolerance, Swap, ExecuteSwapOperations, ProvideLiquidity."
 LEVEL_NOTE = "Not decided: what is measured (numeric); boundary equality; per-index operand selection."
 PM = "pool_manager"
